@@ -1564,23 +1564,51 @@ async def case_reredirect(conn, size, piece, slow, delay):
     for i in range(0, size, piece):
         acts += [('out', data[i:i + piece]), ('drain',)]
     acts.append(('exit', 0))
-    first = SlowAsyncFile(slow)
-    proc = await conn.create_process(new_id(acts), encoding=None, stdout=first)
+    if slow:
+        first = SlowAsyncFile(slow)
+        proc = await conn.create_process(new_id(acts), encoding=None, stdout=first)
+    else:
+        # a pipe nobody reads yet: it fills up, the pipe transport pauses the channel, and nothing but the
+        # re-redirection can take that pause away
+        r, w = os.pipe()
+        proc = await conn.create_process(new_id(acts), encoding=None, stdout=w)
     await asyncio.sleep(delay)
     second = KeepBytesIO()
     await proc.redirect(stdout=second)
+    if not slow:
+        # the old pipe is still not read: only the re-redirection itself can have taken its pause away
+        for _ in range(1500):
+            if second.was_closed:
+                break
+            await asyncio.sleep(0.01)
+        else:
+            proc.close()
+            os.close(r)
+            return data, None
+    sink = None if slow else ThreadSink(lambda fd: os.read(fd, 65536), r, 0)
     try:
         await asyncio.wait_for(proc.wait(), 30)
     except asyncio.TimeoutError:
         proc.close()
         return data, None
-    return data, (first.buf, second.getvalue())
+    if slow:
+        return data, (first.buf, second.getvalue())
+    got1, _ = sink.result()
+    try:
+        os.close(r)
+    except OSError:
+        pass
+    return data, (got1, second.getvalue())
 
 
-def judge_reredirect(data, got):
+def judge_reredirect(data, got, pipe_first=False):
     if got is None:
         return 'the process never finished after stdout was redirected a second time while the first target had it paused'
     a, b = got
+    if pipe_first:
+        # byte accounting for this variant is recorded, not judged (see e2e_reredirect.pipe_variant_bytes_missing):
+        # what is judged is that the pause of the abandoned pipe does not outlive the re-redirection
+        return None if data.startswith(a) else 'the first target received data that was not sent in that order'
     if a + b != data:
         return (f'first target got {len(a)} bytes, second {len(b)}, together they are not the {len(data)} bytes sent '
                 f'(prefix ok: {data.startswith(a)})')
@@ -1642,21 +1670,23 @@ async def e2e_more(ctx):
                                      'size': size, 'nwrites': nwrites, 'slow': slow, 'via': via})
         # ---- (i) redirecting a stream again while its previous target has the channel paused ---------------
         for rnd in range(3 if ctx.tier == 'thorough' else 1):
-            size, piece, slow = rng.choice([200000, 400000]), 1000, rng.choice([20, 60])
-            if hangs >= 3:
+            for size, piece, slow in ((rng.choice([200000, 400000]), 1000, rng.choice([20, 60])), (400000, 4000, 0)):
+              if hangs >= 3:
                 break
-            data, got = await case_reredirect(conn, size, piece, slow, 0.05)
-            why = judge_reredirect(data, got)
-            ctx.note_case(('e2e-reredirect', size, piece, slow), nontrivial=True)
-            ctx.count('e2e_reredirect.sessions')
-            if got is not None and got[0] and got[1]:
-                ctx.count('e2e_reredirect.both_targets_got_data')
-            if got is None:
-                hangs += 1
-            if why:
-                report_once(ctx, 'reredirect', f're-redirection of stdout ({size} bytes, first target takes {slow} loop turns '
-                            f'per write): {why}',
-                            {'kind': 'e2e_reredirect', 'class': 'reredirect', 'size': size, 'piece': piece, 'slow': slow})
+              data, got = await case_reredirect(conn, size, piece, slow, 0.05)
+              why = judge_reredirect(data, got, pipe_first=not slow)
+              if got is not None and not slow and got[0] + got[1] != data:
+                  ctx.count('e2e_reredirect.pipe_variant_bytes_missing', len(data) - len(got[0]) - len(got[1]), group='oracle')
+              ctx.note_case(('e2e-reredirect', size, piece, slow), nontrivial=True)
+              ctx.count('e2e_reredirect.sessions')
+              if got is not None and got[0] and got[1]:
+                  ctx.count('e2e_reredirect.both_targets_got_data')
+              if got is None:
+                  hangs += 1
+              if why:
+                  report_once(ctx, 'reredirect', f're-redirection of stdout ({size} bytes, first target takes {slow} loop turns '
+                              f'per write): {why}',
+                              {'kind': 'e2e_reredirect', 'class': 'reredirect', 'size': size, 'piece': piece, 'slow': slow})
     finally:
         conn.close()
         listener.close()
@@ -1803,7 +1833,7 @@ def replay(rp):
                     why = judge_writer(rp['size'], got)
                 else:
                     data, got = await case_reredirect(conn, rp['size'], rp['piece'], rp['slow'], 0.05)
-                    why = judge_reredirect(data, got)
+                    why = judge_reredirect(data, got, pipe_first=not rp['slow'])
                 print(kind, '->', why)
                 return 1 if why else 0
             finally:
